@@ -11,6 +11,8 @@ static const Part kParts[] = {
 	{"C03", "clm-roundtrip", 3000, 300000},
 	{"C04", "lzh-drain", 6000, 600000},
 	{"C05", "archive-damage", 32, 3200},
+	{"C06", "map-stream", 4000, 400000},
+	{"C07", "map-damage", 32, 3200},
 	{"C12", "stream-actors", 60000, 3000000},
 	{"C13", "stream-actors", 40000, 2000000},
 	{"C14", "writer-actors", 40000, 2000000},
